@@ -421,6 +421,18 @@ with_jobs("C19", lambda tier: [
     S("miri-plain", "zst", "--z", q(tier, "0,2,9", "0,1,2,3,5,9,10"), "--ops", 0, "--lean", 1, "--sample", q(tier, 80, 12)),
 ])
 
+
+def zst_extra(tier):
+    return [S("dbg", "zst", "--ops", 1000 if tier == "quick" else 50000), S("rel", "zst", "--ops", 1000 if tier == "quick" else 50000)]
+
+
+for _p in ("C01", "C03", "C07", "C08", "C09", "C11"):
+    with_jobs(_p, zst_extra)
+
+# C11 quantifies over every operation of the API: the byte-stream traits too
+with_jobs("C11", lambda tier: [S("dbg", "io", "--n", ns(0, 3), "--depth", 2), S("rel", "io", "--n", ns(0, 3), "--depth", 2),
+                               S("dbg", "ctor", "--n", ns(0, 4)), S("dbg", "iters", "--n", ns(0, 4)), S("dbg", "cmp", "--n", 3)])
+
 NATIVE_NOTE = "Trusted base: the harness itself (element type, ledger, model written from the documentation, orchestrator), rustc/cargo, the determinism of the crate (no threads/clock/IO). Held only on the executions produced; nothing is proved."
 
 MANIFEST_TEXT = {
